@@ -115,6 +115,24 @@ CLAIMED = {
             'the wire must carry exactly next..next+n-1 in increasing order, every ClOrdID once, every stored copy must equal the wire bytes, every send must be accepted; each workload runs '
             'in the ASan/UBSan build and about half of them again under ThreadSanitizer (guarded happens-before annotations on the FastFlow queue wrapper, suppressions limited to ff:: frames).',
             'Thread schedules are sampled by the OS scheduler, not enumerated; ThreadSanitizer covers the interleavings that ran in the happens-before sense only.', '4/C25 and 10.7'),
+    'C28': ('E3', 'exploration', 'generated concurrent workloads (Hypothesis) on real producer threads against the real FileLogger, exactly-once / order / sequence oracle on the file',
+            '1-8 producer threads submit generated scripts of lines at generated levels through Logger::send; stop() is called behind the last submit or in mid-run; the file (read after stop() '
+            'returned) must hold every required line exactly once, no line at a disabled level, each producer in submission order, sequence numbers 1..n, and send() must have returned true '
+            'for every accepted line. ASan/UBSan build.',
+            'Schedules sampled by the OS scheduler; lines racing with stop() are only required to appear at most once.', '4/C28 and 10.7'),
+    'C29': ('E1', 'exploration', 'property-based testing (Hypothesis): generated directory states and rotation counts against a directory model, under ASan with std::vector capacity annotations',
+            'Rotation counts 0..1100, append/force flags, sparse pre-existing generation sets (with .idx companions for the store) and unrelated files; FileLogger construction/rotate and '
+            'FilePersister purge rotation run for real and the resulting directory is compared file by file with a model; _GLIBCXX_SANITIZE_VECTOR makes reads beyond a vector\'s size visible.',
+            'The oldest kept generation without a predecessor may stay or go; compression off.', '4/C29 and 10.7'),
+    'C30': ('E3', 'exploration', 'generated schedules (Hypothesis) driving real threads through guarded yield points in the queue, ticket-order oracle from the event log; free-running stress runs',
+            'The schedule vector is part of the generated case: real producer/consumer threads are serialised by a baton and switch at the FIX8_VERIF yield points between the atomic steps of '
+            'uMPMC_Ptr_Queue::push/pop, so a failing interleaving shrinks and replays deterministically. Exactly-once, ticket (reservation) order and the emptiness rule are decided from the '
+            'event log; one case in ten runs 2-16 free threads without the hook.',
+            'Interleavings at hook-point granularity under sequential consistency; bounded operation counts (<= 6 pushes per producer).', '4/C30 and 10.7'),
+    'C31': ('E3', 'exploration', 'model-based property-based testing (Hypothesis): the real Timer thread on an interposed virtual clock against a pending-set model',
+            'Generated scripts of schedule / advance / clear steps over up to 12 events (delays 1-200 ms, repeat flags, callback result scripts); the clock is virtual, the harness waits for the '
+            'timer thread to go round its loop, then compares what fired - and when - with a model: nothing early, due order, repeats one interval after each run until false, nothing after clear.',
+            'Equal due times may fire in either order; the timer thread polls, so real-time latency is not part of the claim.', '4/C31 and 10.7'),
 }
 
 
@@ -160,12 +178,12 @@ def main():
             'guard': 'FIX8_VERIF',
             'enable': 'all harness builds compile /repo sources with -DFIX8_VERIF (build/Makefile CPPFLAGS)',
             'baseline_off_cmd': 'cd /repo && make -k check',
-            'source_commits': ['caf8e87'],
+            'source_commits': ['caf8e87', '829e846'],
             'add_only': False,
         },
         'engines': ENGINES,
         'checks': checks,
-        'notes': 'Hook caf8e87 (include/fix8/ff_wrapper.hpp): ThreadSanitizer acquire/release annotations around the FastFlow queue wrapper, compiled only with -DFIX8_VERIF and -fsanitize=thread; '
+        'notes': 'Hook 829e846 (include/fix8/ff/mpmc/MPMCqueues.hpp): FIX8_VERIF_POINT yield points in uMPMC_Ptr_Queue::push/pop, a call through a function pointer that is null unless a harness installs one. Hook caf8e87 (include/fix8/ff_wrapper.hpp): ThreadSanitizer acquire/release annotations around the FastFlow queue wrapper, compiled only with -DFIX8_VERIF and -fsanitize=thread; '
                  'it turns three one-line wrapper functions into multi-line ones, hence add_only=false (no behaviour changes with the guard off). '
                  'All checks rebuild their executors from /repo working tree (make -C build, -MMD deps) before running. '
                  'known_findings.json lists repaired defects (fixed:) and open findings; see DESIGN.md.',
